@@ -61,6 +61,7 @@ type FuncContract struct {
 	TermProps  []string // properties the termination obligations belong to
 	AllocProp  []string // properties that allocation-budget obligations belong to
 	AllocBound string   // spec expression: upper bound for every make() length in this function
+	NoSafety   bool     // only functional / allocation / call-site obligations; safety stays with the sweep
 	Splits     []Split
 	Unroll     map[int]int
 	File       string
@@ -366,6 +367,10 @@ func (cs *Contracts) loadContractFile(path, pkgPath string) {
 		case "termprops":
 			if curF != nil {
 				curF.TermProps = strings.Fields(rest)
+			}
+		case "nosafety":
+			if curF != nil {
+				curF.NoSafety = true
 			}
 		case "allocbound":
 			if curF != nil {
